@@ -406,7 +406,6 @@ func H07_Ping() {
 			verif.Assert(r.b.PrimaryBlock.SourceNode.SameNode(c.NodeId), "the answer originates at this node")
 		}
 	}
-	verif.Observe("pongs", pongs, len(log))
 	if rt == "dtn://peer1/" || rt == "dtn:none" {
 		// answers for peer 1 are delivered directly, answers for nobody are not offered to peer 2 necessarily
 		verif.Reach("end")
